@@ -16,6 +16,7 @@ from concurrent.futures import ThreadPoolExecutor
 from pathlib import Path
 
 VERIF = Path(__file__).resolve().parent.parent
+SAVE_CORPUS = False
 
 
 def one(name, tier):
@@ -34,6 +35,14 @@ def one(name, tier):
         t0 = time.time()
         p = subprocess.run([str(VERIF / "check"), meta["property"], tier], env=env, capture_output=True, text=True)
         viol = any(l.startswith("VIOLATION") for l in p.stdout.splitlines())
+        if viol and SAVE_CORPUS:
+            # keep the minimised failing case as a permanent regression input (it passes on the real tree)
+            rp = next(l for l in p.stdout.splitlines() if l.startswith("VIOLATION")).split("replay=", 1)[1].strip()
+            body = json.loads(Path(rp).read_text())
+            body["message"] = f"minimal case found when the seeded change {name} was applied: " + body.get("message", "")[:300]
+            dest = VERIF / "corpus" / meta["property"]
+            dest.mkdir(parents=True, exist_ok=True)
+            (dest / f"seed-{name}.json").write_text(json.dumps(body, indent=1, sort_keys=True))
         msg = next((l for l in p.stdout.splitlines() if l.startswith("violation in")), (p.stderr.strip().splitlines() or [""])[-1])
         return name, meta["property"], "CAUGHT" if (p.returncode == 1 and viol) else f"MISSED exit={p.returncode}", round(time.time() - t0, 1), msg[:150]
     finally:
@@ -46,7 +55,10 @@ def main():
     ap.add_argument("--jobs", type=int, default=6)
     ap.add_argument("--only", default="")
     ap.add_argument("--tier", default="quick")
+    ap.add_argument("--save-corpus", action="store_true")
     a = ap.parse_args()
+    global SAVE_CORPUS
+    SAVE_CORPUS = a.save_corpus
     names = sorted(p.name for p in (VERIF / "seeded").iterdir() if (p / "patch.diff").exists())
     if a.only:
         names = [n for n in names if n in a.only.split(",")]
